@@ -54,6 +54,60 @@ def _trivial(fn):
     return True
 
 
+def kinetic_energy_bases(ctx, rule="C04.R11"):
+    """M = diag(m I, B_Theta_C) acts on u = (I_v_C, B_Omega): '1/2 u^T M u wherever a kinetic energy is reported' means the rotational part is
+    B_Omega . B_Theta_C B_Omega.  An angular velocity rotated into the inertial basis (as the export does for display) contracted with the
+    body-fixed tensor is exact for a spherical tensor or the identity orientation only."""
+    rep = ctx.rep
+    n = 0
+    for cname, rel in FILES.items():
+        mod = ctx.repo.modules.get(rel)
+        if mod is None:
+            continue
+        for cls in [c for c in ast.walk(mod.tree) if isinstance(c, ast.ClassDef)]:
+            fn = next((f for f in cls.body if isinstance(f, ast.FunctionDef) and f.name == "E_kin"), None)
+            if fn is None:
+                continue
+            C = f"{rel}:{cls.name}.E_kin"
+            binds = {w.targets[0].id: w.value for w in ast.walk(fn) if isinstance(w, ast.Assign) and len(w.targets) == 1 and isinstance(w.targets[0], ast.Name)}
+
+            def basis(e, depth=0):
+                if depth > 6:
+                    return None
+                if isinstance(e, ast.Name) and e.id in binds:
+                    return basis(binds[e.id], depth + 1)
+                if isinstance(e, ast.Subscript) and norm_src(e).replace(" ", "") == "u[3:]":
+                    return "B"
+                if isinstance(e, ast.Call) and isinstance(e.func, ast.Attribute) and dotted(e.func.value) == "self":
+                    if e.func.attr.startswith("B_"):
+                        return "B"
+                    if e.func.attr in ("Omega", "I_Omega"):
+                        return "I"
+                if isinstance(e, ast.BinOp) and isinstance(e.op, ast.MatMult):
+                    L = e.left
+                    if isinstance(L, ast.Call) and isinstance(L.func, ast.Attribute) and L.func.attr == "A_IB" and basis(e.right, depth + 1) == "B":
+                        return "I"
+                    if isinstance(L, ast.Attribute) and L.attr == "T" and isinstance(L.value, ast.Call) and isinstance(L.value.func, ast.Attribute) and L.value.func.attr == "A_IB" \
+                            and basis(e.right, depth + 1) == "I":
+                        return "B"
+                return None
+            for w in ast.walk(fn):
+                # x @ self.B_Theta_C @ y   (left-assoc: (x @ Theta) @ y)
+                if isinstance(w, ast.BinOp) and isinstance(w.op, ast.MatMult) and isinstance(w.left, ast.BinOp) and isinstance(w.left.op, ast.MatMult) \
+                        and isinstance(w.left.right, ast.Attribute) and dotted(w.left.right.value) == "self" and w.left.right.attr.startswith("B_Theta"):
+                    n += 1
+                    bl, br = basis(w.left.left), basis(w.right)
+                    if "I" in (bl, br):
+                        rep.bad(rule, C, w, f"`{norm_src(w)[:70]}` contracts the body-fixed tensor self.{w.left.right.attr} with an angular velocity given in the inertial basis "
+                                f"(`{norm_src(w.right)}` = {norm_src(binds.get(getattr(w.right, 'id', ''), w.right))[:50]}): the reported kinetic energy is not 1/2 u^T M u, depends on the orientation and is "
+                                "not conserved for a torque-free body unless the tensor is spherical", f"{rel}:{w.lineno}")
+                    elif bl == br == "B":
+                        rep.ok(rule, C, f"`{norm_src(w)[:60]}`: body-fixed tensor with body-fixed angular velocity")
+                    else:
+                        rep.ok(rule, C, f"`{norm_src(w)[:60]}`: bases not derivable (no verdict)", verdict="unknown")
+    rep.ok(rule, "cardillo/discrete", f"{n} quadratic forms with the body-fixed inertia tensor in E_kin methods", trivial=True)
+
+
 def velocity_derivatives_exact(ctx, rule="C04.R10"):
     """K19 on RigidBody's point kinematics: v_P, a_P, kappa_P are polynomials in cross products of u[:3], u[3:], u_dot[3:], B_r_CP behind a
     common rotation A_IB(t, q) that does not depend on u.  Their stated u-derivatives (J_P, a_P_u, kappa_P_u) are 3 x nu buffers with a
@@ -162,6 +216,8 @@ def run(ctx):
     rep.rule("C04.R2", "Frame time chain", 4)
     rep.rule("C04.R3", "offset dependence of the point kinematics family", 10)
     rep.rule("C04.R4", "RigidBody state slices and kinematic-equation kernel", 8)
+    rep.rule("C04.R11", "a kinetic energy reported by a discrete body contracts the body-fixed inertia tensor with BODY-FIXED angular velocity components (K15 basis typing: A_IB @ B-vector is an I-vector)", 0)
+    kinetic_energy_bases(ctx)
     rep.rule("C04.R5", "E_kin uses the mass data of M", 1)
     rep.rule("C04.R6", "RigidBody builds its rotation (and its q-derivative) with the normalising quaternion kernel: a rotation for any nonzero quaternion", 4)
     from .c11 import normalising_rule
@@ -339,4 +395,12 @@ MUTANTS += [
 NEUTRAL += [
     dict(id="c04-n-r10", canary=True, what="RigidBody.kappa_P_u in closed form with all three terms; a_P_u forwards to it", file='cardillo/discrete/rigid_body.py',
          edits=[('cardillo/discrete/rigid_body.py', '        a_P_u = np.zeros((3, self.nu), dtype=float)\n        a_P_u[:, 3:] = -self.A_IB(t, q) @ (\n            ax2skew(cross3(u[3:], B_r_CP)) + ax2skew(u[3:]) @ ax2skew(B_r_CP)\n        )\n        return a_P_u\n', '        return self.kappa_P_u(t, q, u, xi=xi, B_r_CP=B_r_CP)\n'), ('cardillo/discrete/rigid_body.py', '        kappa_P_u = np.zeros((3, self.nu))\n        kappa_P_u[:, 3:] = -self.A_IB(t, q) @ (\n            ax2skew(cross3(u[3:], B_r_CP)) + ax2skew(u[3:]) @ ax2skew(B_r_CP)\n        )\n        return kappa_P_u\n', '        omega = u[3:]\n        kappa_P_u = np.zeros((3, self.nu))\n        kappa_P_u[:, 3:] = self.A_IB(t, q) @ (\n            (omega @ B_r_CP) * np.eye(3) + np.outer(omega, B_r_CP) - 2.0 * np.outer(B_r_CP, omega)\n        )\n        return kappa_P_u\n')]),
+]
+
+MUTANTS += [
+    dict(id="c04-r11-seed", canary=True, what="[seeded by sub-agent] RigidBody gains E_kin with the angular velocity rotated into the inertial basis contracted with B_Theta_C", file='cardillo/discrete/rigid_body.py',
+         old='    def B_Omega(self, t, q, u, xi=None):\n        return u[3:]\n', new='    def E_kin(self, t, q, u):\n        Omega = self.A_IB(t, q) @ self.B_Omega(t, q, u)\n        return 0.5 * self.mass * (u[:3] @ u[:3]) + 0.5 * Omega @ self.B_Theta_C @ Omega\n\n    def B_Omega(self, t, q, u, xi=None):\n        return u[3:]\n', expect="C04.R11"),
+]
+NEUTRAL += [
+    dict(id="c04-n-r11", canary=True, what="RigidBody gains E_kin = 1/2 m v.v + 1/2 B_Omega . B_Theta_C B_Omega", file='cardillo/discrete/rigid_body.py', old='    def B_Omega(self, t, q, u, xi=None):\n        return u[3:]\n', new='    def E_kin(self, t, q, u):\n        B_Omega = self.B_Omega(t, q, u)\n        return 0.5 * self.mass * (u[:3] @ u[:3]) + 0.5 * B_Omega @ self.B_Theta_C @ B_Omega\n\n    def B_Omega(self, t, q, u, xi=None):\n        return u[3:]\n'),
 ]
